@@ -470,6 +470,8 @@ func timings(t *testing.T, prop string) {
 				{"resolve A1", func(x *fx) bool { x.resolve("A1", "1"); return true }},
 				{"all integrations: recoverable errors", func(x *fx) bool { x.setMode("", mRecoverable); return true }},
 				{"all integrations: ok", func(x *fx) bool { x.setMode("", mOK); return true }},
+				{"restart (same data dir)", func(x *fx) bool { x.restart(); return true }},
+				{"reload (same configuration)", func(x *fx) bool { x.reload(); return true }},
 				evAdvance(11 * time.Second), evAdvance(61 * time.Second), evAdvance(2*time.Minute + 1*time.Second),
 			}}
 		s.explore(t)
